@@ -201,6 +201,144 @@ func init() {
 
 	// a damaged record is reported even when the adoption is refused for another
 	// reason: AdoptSession has removed it by then, and nobody else will tell
+	// the client-identifier record is damaged at rest while the client lives
+	// (every byte position x a few values, every truncation); the next
+	// connect either reports it or, if it does not read the record again,
+	// uses the identifier that was stored -- never the damaged bytes
+	e3tests["c15-live"] = func(e *e3, thorough bool) {
+		const id = "e3-client-identifier"
+		flips := []byte{0x01, 0x20, 0x80}
+		if thorough {
+			flips = nil
+			for v := 1; v < 256; v++ {
+				flips = append(flips, byte(v))
+			}
+		}
+		for _, alias := range []bool{true, false} {
+			probe := newPlainStore()
+			cfg0 := baseConfig()
+			cfg0.Dialer = func(ctx context.Context) (net.Conn, error) { return nil, errors.New("no") }
+			if _, err := mqtt.InitSession(id, probe, &cfg0); err != nil {
+				e.violate("C15", "setup", "%v", err)
+				return
+			}
+			size := len(probe.m[0])
+			type dmg struct {
+				pos  int
+				flip byte
+				cut  int
+			}
+			var ds []dmg
+			for pos := 0; pos < size; pos++ {
+				for _, f := range flips {
+					ds = append(ds, dmg{pos: pos, flip: f, cut: -1})
+				}
+			}
+			for cut := 0; cut < size; cut++ {
+				ds = append(ds, dmg{cut: cut})
+			}
+			for _, d := range ds {
+				if !e.mine() {
+					continue
+				}
+				e.evals.Add(1)
+				store := newPlainStore()
+				store.alias = alias
+				cfg := baseConfig()
+				cfg.PauseTimeout = 0
+				conns := []*loopConn{newLoopConn(), newLoopConn()}
+				dials := 0
+				cfg.Dialer = func(ctx context.Context) (net.Conn, error) {
+					dials++
+					if dials > len(conns) {
+						return nil, errors.New("e3: no more connections")
+					}
+					return conns[dials-1], nil
+				}
+				c, err := mqtt.InitSession(id, store, &cfg)
+				if err != nil {
+					e.violate("C15", "setup", "%v", err)
+					return
+				}
+				results := make(chan error, 8)
+				go func() {
+					for {
+						_, _, err := c.ReadSlices()
+						results <- err
+						if err != nil && (errors.Is(err, mqtt.ErrClosed) || len(results) > 4) {
+							return
+						}
+						if err != nil && dials >= 2 {
+							return
+						}
+					}
+				}()
+				select {
+				case <-c.Online():
+				case <-time.After(e3Stall / 4):
+					e.violate("C15", "setup", "no Online on the first connection")
+					continue
+				}
+				// damage at rest, in place
+				store.mu.Lock()
+				if d.cut >= 0 {
+					store.m[0] = store.m[0][:d.cut]
+				} else {
+					store.m[0][d.pos] ^= d.flip
+				}
+				store.mu.Unlock()
+				conns[0].Close() // connection lost
+				var rerr error
+				deadline := time.After(e3Stall / 4)
+			wait:
+				for {
+					select {
+					case rerr = <-results:
+						if rerr != nil && !errors.Is(rerr, net.ErrClosed) && !strings.Contains(rerr.Error(), "closed") {
+							break wait
+						}
+						if dials >= 2 {
+							// a second connection was opened: look at it once it is answered
+							select {
+							case <-c.Online():
+							case <-time.After(50 * time.Millisecond):
+							}
+							break wait
+						}
+					case <-time.After(5 * time.Millisecond):
+						if dials >= 2 {
+							select {
+							case <-c.Online():
+							case <-time.After(50 * time.Millisecond):
+							}
+							break wait
+						}
+					case <-deadline:
+						break wait
+					}
+				}
+				reported := rerr != nil && strings.Contains(rerr.Error(), "corrupt")
+				e.distinct[fmt.Sprintf("live/%t/%t/%t", alias, d.cut >= 0, reported)] = true
+				pk, _ := conns[1].packets()
+				for _, p := range pk {
+					if p.Type == tCONNECT && p.Connect != nil && p.Connect.ClientID != id {
+						e.violate("C15", "damaged-clientid-transmitted#live", "record 0 damaged at rest (pos %d xor %#x, cut %d; store aliasing %t): the next CONNECT carries client identifier %q, stored was %q", d.pos, d.flip, d.cut, alias, p.Connect.ClientID, id)
+					}
+				}
+				go c.Close()
+				for k := 0; k < 6; k++ {
+					select {
+					case err := <-results:
+						if errors.Is(err, mqtt.ErrClosed) {
+							k = 6
+						}
+					case <-time.After(200 * time.Millisecond):
+						k = 6
+					}
+				}
+			}
+		}
+	}
 	e3tests["c15-denied"] = func(e *e3, thorough bool) {
 		if e.shard != 0 {
 			return
@@ -413,8 +551,17 @@ func c20(e *e3, thorough bool) {
 		}
 		return out
 	}
-	wants := seqs(2)
 	calls := seqs(2)
+	// expectations also script the result: a scripted error does not excuse
+	// a deviation, and it is what the call returns
+	errScripted := errors.New("scripted failure")
+	callAlphabet := alphabet
+	alphabet = nil
+	for _, a := range callAlphabet {
+		alphabet = append(alphabet, a, tr{Message: a.Message, Topic: a.Topic, Err: errScripted})
+	}
+	wants := seqs(2)
+	alphabet = callAlphabet
 	if thorough {
 		calls = seqs(3)
 	}
@@ -439,11 +586,16 @@ func c20(e *e3, thorough bool) {
 						}
 					}()
 					pub := mqtttest.NewPublishMock(rec, want...)
+					callIdx := 0
 					for _, c := range call {
 						err := pub(quit, c.Message, c.Topic)
 						if qi == 2 && !errors.Is(err, mqtt.ErrCanceled) {
 							e.violate("C20", "publish-mock-quit", "publish mock with closed quit returned %v", err)
 						}
+						if ci := callIdx; qi != 2 && ci < len(want) && err != want[ci].Err {
+							e.violate("C20", "publish-mock-result", "publish mock: call %d returned %v, the expectation scripts %v", ci, err, want[ci].Err)
+						}
+						callIdx++
 					}
 					rec.finish()
 				}()
@@ -907,6 +1059,10 @@ func (g gatedBlock) As(target any) bool {
 func trs(l []mqtttest.Transfer) string {
 	var s []string
 	for _, t := range l {
+		if t.Err != nil {
+			s = append(s, fmt.Sprintf("(%q,%q,err)", t.Message, t.Topic))
+			continue
+		}
 		s = append(s, fmt.Sprintf("(%q,%q)", t.Message, t.Topic))
 	}
 	return "[" + strings.Join(s, " ") + "]"
